@@ -111,6 +111,28 @@ def roundtrip(run, n):
         c.pop('named')                       # "nets (as sets of pins)"
         c.pop('models')                      # "same instances, types, data and nets": the type of an instance is under insts/ref
     fails = R.failures_from_diff(PID, R.diff(c0, c1), prefix='rt.')
+    # "the same instances ... and data": the record of an instance's deliberately open pins (`unconn` actuals) survives: whatever was
+    # recorded before is recorded afterwards (the writer marks every open pin, so the record may grow; it must not shrink)
+    def open_pins(net, existing_only):
+        top = net.top_instance.reference if net.top_instance is not None else None
+        out = {}
+        for i in (top.children if top is not None else []):
+            unc = i.data.get('unconn')
+            # only pins the instance really has: an undeclared model gets no pin for an open actual above its widest connected bit
+            # (documented latitude), and what has no pin cannot be written
+            have = set('%s[%d]' % (q.inner_pin.port.name, q.inner_pin.port.pins.index(q.inner_pin)) for q in i.pins
+                       if q.inner_pin is not None and q.inner_pin.port is not None)
+            out[i.name] = set(x for x in map(str, unc) if (x in have or not existing_only)) if isinstance(unc, (list, tuple, set)) else set()
+        return out
+    try:
+        p0, p1 = open_pins(n, True), open_pins(m, False)
+        for name in sorted(set(p0) & set(p1), key=str):
+            if not p0[name] <= p1[name]:
+                fails.append((PID + '.rt.data', 'unconn', 'instance %r: pins recorded as deliberately open %r before, %r after write-then-read' % (
+                    name, sorted(p0[name]), sorted(p1[name]))))
+                break
+    except Exception as e:
+        fails.append(('HARNESS', 'open_pins', repr(e)))
     fails += R.wellformed(m, PID)
     return fails
 
